@@ -482,10 +482,14 @@ fn between(value: &FeelDateTime, left: &FeelDateTime, right: &FeelDateTime, left
 }
 
 fn compare(me: &FeelDateTime, other: &FeelDateTime) -> Option<Ordering> {
+  // two local values are compared on the wall clock: no time zone is involved, so neither
+  // the time zone of the process nor the date (for times: the current one) can change the result
+  let both_local = matches!((&(me.1).4, &(other.1).4), (FeelZone::Local, FeelZone::Local));
   let me_date_tuple = me.0.as_tuple();
   let me_time_tuple = ((me.1).0 as u32, (me.1).1 as u32, (me.1).2 as u32, (me.1).3 as u32);
   let me_offset_opt = match &(me.1).4 {
     FeelZone::Utc => Some(0),
+    FeelZone::Local if both_local => Some(0),
     FeelZone::Local => get_local_offset(me_date_tuple, me_time_tuple),
     FeelZone::Offset(offset) => Some(*offset),
     FeelZone::Zone(zone_name) => get_zone_offset(zone_name, me_date_tuple, me_time_tuple),
@@ -494,6 +498,7 @@ fn compare(me: &FeelDateTime, other: &FeelDateTime) -> Option<Ordering> {
   let other_time_tuple = ((other.1).0 as u32, (other.1).1 as u32, (other.1).2 as u32, (other.1).3 as u32);
   let other_offset_opt = match &(other.1).4 {
     FeelZone::Utc => Some(0),
+    FeelZone::Local if both_local => Some(0),
     FeelZone::Local => get_local_offset(other_date_tuple, other_time_tuple),
     FeelZone::Offset(offset) => Some(*offset),
     FeelZone::Zone(zone_name) => get_zone_offset(zone_name, other_date_tuple, other_time_tuple),
@@ -509,10 +514,14 @@ fn compare(me: &FeelDateTime, other: &FeelDateTime) -> Option<Ordering> {
 }
 
 pub fn subtract(me: &FeelDateTime, other: &FeelDateTime) -> Option<i64> {
+  // two local values are compared on the wall clock: no time zone is involved, so neither
+  // the time zone of the process nor the date (for times: the current one) can change the result
+  let both_local = matches!((&(me.1).4, &(other.1).4), (FeelZone::Local, FeelZone::Local));
   let me_date_tuple = me.0.as_tuple();
   let me_time_tuple = ((me.1).0 as u32, (me.1).1 as u32, (me.1).2 as u32, (me.1).3 as u32);
   let me_offset_opt = match &(me.1).4 {
     FeelZone::Utc => Some(0),
+    FeelZone::Local if both_local => Some(0),
     FeelZone::Local => get_local_offset(me_date_tuple, me_time_tuple),
     FeelZone::Offset(offset) => Some(*offset),
     FeelZone::Zone(zone_name) => get_zone_offset(zone_name, me_date_tuple, me_time_tuple),
@@ -521,6 +530,7 @@ pub fn subtract(me: &FeelDateTime, other: &FeelDateTime) -> Option<i64> {
   let other_time_tuple = ((other.1).0 as u32, (other.1).1 as u32, (other.1).2 as u32, (other.1).3 as u32);
   let other_offset_opt = match &(other.1).4 {
     FeelZone::Utc => Some(0),
+    FeelZone::Local if both_local => Some(0),
     FeelZone::Local => get_local_offset(other_date_tuple, other_time_tuple),
     FeelZone::Offset(offset) => Some(*offset),
     FeelZone::Zone(zone_name) => get_zone_offset(zone_name, other_date_tuple, other_time_tuple),
